@@ -1096,11 +1096,15 @@ class Executor(object):
                 env[n] = d.value
             else:
                 raise TypeErrorCall("%s() missing argument %s" % (f.qual, n))
+        extra = {}
         for k in kw:
             if k not in params:
                 if a.kwarg is not None:
-                    raise Unsupported("**kwargs receiver")
+                    extra[k] = kw[k]
+                    continue
                 raise TypeErrorCall("%s() unexpected keyword %s" % (f.qual, k))
+        if a.kwarg is not None:
+            env[a.kwarg.arg] = p.new_obj("record", {"items": extra})
         return env
 
     def inline(self, f, args, kw, p, ln):
